@@ -1,7 +1,7 @@
 // C20 harness: forced schedules on the real Singleton<T> and ManagedThread.
 //
 //   c20_harness singleton <threads> <rounds> forced|free
-//   c20_harness managed   <observers> <rounds> forced|free
+//   c20_harness managed   <observers> <rounds> forced|free|early
 //
 // forced: the critical schedule is constructed (singleton: the constructor of the
 //         object does not return before every other thread has had ample time to
@@ -141,9 +141,20 @@ void hook_free( const char* name)
    ::usleep( 300);   // widens the window, does not synchronise
 }
 
-int run_managed( int nobs, int rounds, bool forced)
+void hook_none( const char* name)
 {
-   celma_verif::set_hook( forced ? hook_forced : hook_free);
+   if (std::strcmp( name, "managed_thread.after_start") == 0)
+      g_hook_seen.fetch_add( 1);
+}
+
+// sched: 0 = free (the hook widens the window), 1 = forced (the constructor is held until the thread function
+// runs), 2 = early (no delay at all: the first query right after the constructor mostly precedes the start of
+// the thread function)
+int run_managed( int nobs, int rounds, int sched)
+{
+   const bool  forced = sched == 1;
+   celma_verif::set_hook( sched == 1 ? hook_forced : sched == 2 ? hook_none : hook_free);
+   long  early_false = 0;
    long  inactive_while_running = 0, active_after_join = 0, samples = 0, samples_running = 0;
    long  free_polls = 0, free_polls_active = 0;
    for (int r = 0; r < rounds; ++r)
@@ -196,6 +207,10 @@ int run_managed( int nobs, int rounds, bool forced)
             wait_for( rd.release, 1, 10000);
             rd.finished.store( 1);
          });
+         // a query right after the constructor: "false" is a legal answer here (not started yet) and must not
+         // influence any later answer
+         if (!mt.isActive())
+            ++early_false;
          rd.obj.store( &mt);
          wait_for( rd.sampled, nobs, 10000);
          rd.release.store( 1);
@@ -217,10 +232,10 @@ int run_managed( int nobs, int rounds, bool forced)
    celma_verif::set_hook( nullptr);
    std::printf( "mode=managed observers=%d rounds=%d sched=%s samples=%ld samples_while_running=%ld "
                 "inactive_while_running=%ld active_after_join=%ld hook_seen=%d hook_timeout=%d "
-                "free_polls=%ld free_polls_active=%ld\n",
-                nobs, rounds, forced ? "forced" : "free", samples, samples_running,
+                "free_polls=%ld free_polls_active=%ld early_false=%ld\n",
+                nobs, rounds, sched == 1 ? "forced" : sched == 2 ? "early" : "free", samples, samples_running,
                 inactive_while_running, active_after_join, g_hook_seen.load(), g_hook_timeout.load(),
-                free_polls, free_polls_active);
+                free_polls, free_polls_active, early_false);
    return 0;
 }
 
@@ -241,6 +256,6 @@ int main( int argc, char** argv)
    if (mode == "singleton")
       return run_singleton( n, rounds, forced);
    if (mode == "managed")
-      return run_managed( n, rounds, forced);
+      return run_managed( n, rounds, forced ? 1 : std::string( argv[ 4]) == "early" ? 2 : 0);
    return 2;
 }
